@@ -143,6 +143,9 @@ func (w *world) fileChecks() {
 	if len(r.Viol) == 0 {
 		w.checkReadBack(files, "input")
 	}
+	if len(r.Viol) == 0 && !r.CfgBool("nowritercheck") {
+		w.checkWriterRoundTrip(files, dir)
+	}
 	if len(r.Viol) == 0 && !r.CfgBool("nocompactcheck") {
 		w.checkCompaction(fs2, files, want, keys, dir)
 	}
@@ -426,6 +429,100 @@ func readKeyCursor(ctx context.Context, fs2 *tsm1.FileStore, key []byte, typ byt
 		kc.Next()
 	}
 	return nil, fmt.Errorf("key cursor did not terminate")
+}
+
+// checkWriterRoundTrip: C08(a), the write side — the keys and values of one engine-produced file are written again
+// through the TSM writer, with the in-memory index and with the disk-backed one (which Compactor.write only picks
+// for very large indexes), and the new file must read back with exactly those keys, types and values.
+func (w *world) checkWriterRoundTrip(files []*tsm1.TSMReader, dir string) {
+	r := w.r
+	if len(files) == 0 {
+		return
+	}
+	cfg := r.Tape.S("filecheck")
+	src := files[cfg.Choose(len(files), "rtfile")]
+	type kv struct {
+		key []byte
+		vs  []tsm1.Value
+	}
+	var in []kv
+	for i := 0; i < src.KeyCount(); i++ {
+		k, _ := src.KeyAt(i)
+		vs, err := src.ReadAll(k)
+		if err != nil || len(vs) == 0 {
+			continue
+		}
+		in = append(in, kv{append([]byte{}, k...), vs})
+	}
+	if len(in) == 0 {
+		return
+	}
+	for _, mode := range []string{"memory-index", "disk-index"} {
+		p := filepath.Join(dir, "rt-"+mode+".tsm")
+		fd, err := os.OpenFile(p, os.O_CREATE|os.O_RDWR|os.O_TRUNC, 0o666)
+		if err != nil {
+			return
+		}
+		var tw tsm1.TSMWriter
+		if mode == "disk-index" {
+			tw, err = tsm1.NewTSMWriterWithDiskBuffer(fd)
+		} else {
+			tw, err = tsm1.NewTSMWriter(fd)
+		}
+		if err != nil {
+			fd.Close()
+			return
+		}
+		for _, e := range in {
+			if err := tw.Write(e.key, e.vs); err != nil {
+				r.Violate("C08:writer-error", "write:"+mode, "TSM writer (%s) refuses key %q with %d values of an existing file: %v", mode, e.key, len(e.vs), err)
+				tw.Close()
+				return
+			}
+		}
+		if err := tw.WriteIndex(); err != nil {
+			r.Violate("C08:writer-error", "write-index:"+mode, "WriteIndex (%s): %v", mode, err)
+			tw.Close()
+			return
+		}
+		if err := tw.Close(); err != nil {
+			r.Violate("C08:writer-error", "close:"+mode, "Close (%s): %v", mode, err)
+			return
+		}
+		rfd, err := os.Open(p)
+		if err != nil {
+			return
+		}
+		rd, err := tsm1.NewTSMReader(rfd)
+		if err != nil {
+			r.Violate("C08:round-trip", "unreadable:"+mode, "a file written by the TSM writer (%s) from %d keys does not open: %v", mode, len(in), err)
+			return
+		}
+		if rd.KeyCount() != len(in) {
+			r.Violate("C08:round-trip", "key-count:"+mode, "wrote %d keys through the TSM writer (%s), the file reads back %d keys (last key written %q)", len(in), mode, rd.KeyCount(), in[len(in)-1].key)
+		}
+		for i, e := range in {
+			if len(r.Viol) > 0 {
+				break
+			}
+			k, _ := rd.KeyAt(i)
+			if string(k) != string(e.key) {
+				r.Violate("C08:round-trip", "key:"+mode, "key %d reads back as %q, written %q (%s)", i, k, e.key, mode)
+				break
+			}
+			vs, err := rd.ReadAll(e.key)
+			if err != nil || diffPV(valsToPV(e.vs), valsToPV(vs)) != "" {
+				r.Violate("C08:round-trip", "values:"+mode, "key %q: values read back differ from the values written (%s): %v %s", e.key, mode, err, diffPV(valsToPV(e.vs), valsToPV(vs)))
+				break
+			}
+		}
+		rd.Close()
+		os.Remove(p)
+		r.Probe("probe_writer_round_trip_" + strings.ReplaceAll(mode, "-", "_"))
+		if r.Sim != nil {
+			r.Sim.Progress.Add(1)
+		}
+	}
 }
 
 // checkReadBack: C08(a) — index lookups agree with the content of each file.
